@@ -1270,10 +1270,11 @@ def o_polyval(mir, tier, seed):
             im, a, b = d[0], deref(d[1]).variant, deref(d[2]).variant
             if im[1] == 'ext' and (a, b) == ('OnBoundary', 'Inside'):
                 return Enum('OneDimensional' if ('ext_line', im[2]) in flags else 'Empty')
+            same = im[1] == im[2]          # a ring related to itself overlaps itself
             if im[1] != 'ext' and (a, b) == ('Inside', 'Inside'):
-                return Enum('TwoDimensional' if ('area', im[1], im[2]) in flags else 'Empty')
+                return Enum('TwoDimensional' if same or ('area', im[1], im[2]) in flags else 'Empty')
             if im[1] != 'ext' and (a, b) == ('OnBoundary', 'OnBoundary'):
-                return Enum('OneDimensional' if ('line', im[1], im[2]) in flags else 'Empty')
+                return Enum('OneDimensional' if same or ('line', im[1], im[2]) in flags else 'Empty')
             odd.append((im, a, b))
             return Enum('Empty')
         uf = {'re:<geo_types::Polygon<F> as (algorithm::)?dimensions::HasDimensions>::is_empty': lambda ip, d: 'ext' in empty,
@@ -1780,6 +1781,90 @@ def o_rawint(mir, tier, seed):
         bad.append(z3.And(pc, z3.Or(cross(p0, p1, x) != 0, cross(q0, q1, x) != 0)))
     st, info, model = check_unsat('raw_line_intersection_real', [w != 0, z3.Or(bad)], timeout_s=25)
     return dict(theory='Real (nonlinear: rational functions); Float::min / max = the real min / max, is_nan / is_infinite = false', functions=['line_intersection::raw_line_intersection'], paths=len(outs), status=st, info=info, model=None, replay=('raw_line_intersection', ''))
+
+
+@obligation('C14', 'multipolygon_validation_assembly', 'MultiPolygon::visit_validation for 0-3 members, each member reporting 0-2 errors of its own, every pair overlapping and / or touching along a line or not (all combinations for 2 members; one at a time, all, none for 3): the members\' own errors are forwarded wrapped with the member\'s index, then for every later member j the pair errors (i, j), in source order, each once; the first Err returned by the handler ends everything and is returned [Polygon::visit_validation, relate, matrix accessors uninterpreted]')
+def o_mpolyval(mir, tier, seed):
+    import itertools
+    fn = mir.find('geo', r'multi_polygon::<impl at [^>]*>::visit_validation')
+    bad, npaths, nruns, detail = 0, 0, 0, []
+
+    def run_cfg(n, inner, flags, stop_at):
+        events = []
+
+        def handler(ip, d):
+            events.append(canon(d[1][0] if isinstance(d[1], list) else d[1]))
+            if stop_at is not None and len(events) == stop_at:
+                return Enum('Err', ['stop'])
+            return Enum('Ok', [[]])
+
+        def member_validation(ip, d, pc, argv):
+            i = d[0][1]
+            for e in inner[i]:
+                outs = ip.call_closure(d[1], [('inner-error', i, e)], pc, 1)
+                if len(outs) != 1:
+                    raise Untranslatable('forwarding closure forked')
+                r = deref(outs[0][1])
+                if variant_is(r, 'Err'):
+                    return r
+            return Enum('Ok', [[]])
+        member_validation.wants_raw = True
+
+        def get(ip, d):
+            im, a, b = d[0], deref(d[1]).variant, deref(d[2]).variant
+            same = im[1] == im[2]          # a member related to itself overlaps itself
+            if (a, b) == ('Inside', 'Inside'):
+                return Enum('TwoDimensional' if same or ('overlap', im[1], im[2]) in flags else 'Empty')
+            if (a, b) == ('OnBoundary', 'OnBoundary'):
+                return Enum('OneDimensional' if same or ('touch', im[1], im[2]) in flags else 'Empty')
+            events.append(('unexpected-matrix-query', a, b))
+            return Enum('Empty')
+        uf = {'re:Box::<&mut \\{closure@.*\\}>::new': lambda ip, d: d[0],
+              're:<geo_types::Polygon<F> as (algorithm::)?validation::Validation>::visit_validation::<T>': member_validation,
+              're:<geo_types::Polygon<F> as (algorithm::)?relate::Relate<F>>::relate::<.*>': lambda ip, d: ('im', d[0][1], d[1][1]),
+              're:IntersectionMatrix::get': get,
+              're:<Box<dyn FnMut\\(InvalidMultiPolygon\\) -> Result<\\(\\), T>> as FnMut<\\(InvalidMultiPolygon,\\)>>::call_mut': handler}
+        ip = Interp(mir, IntTheory(), EXTRA, uf)
+        mp = [[('member', i) for i in range(n)]]
+        outs = ip.call_fn(fn, [Ref(lambda: mp), ('the-handler',)], z3.BoolVal(True))
+        want = []
+        for i in range(n):
+            for e in inner[i]:
+                want.append(('InvalidPolygon', (i,), ('inner-error', i, e)))
+            for j in range(i + 1, n):
+                if ('overlap', i, j) in flags:
+                    want.append(('ElementsOverlaps', (i,), (j,)))
+                if ('touch', i, j) in flags:
+                    want.append(('ElementsTouchOnALine', (i,), (j,)))
+        stopped = stop_at is not None and len(want) >= stop_at
+        if stopped:
+            want = want[:stop_at]
+        res = canon(outs[0][1]) if len(outs) == 1 else None
+        ok = len(outs) == 1 and events == want and res == (('Err', 'stop') if stopped else ('Ok', ()))
+        return ok, len(outs), (n, inner, sorted(flags), stop_at, events, want, res)
+
+    for n in (0, 1, 2, 3):
+        pairs = [(i, j) for i in range(n) for j in range(i + 1, n)]
+        allflags = [(k, i, j) for (i, j) in pairs for k in ('overlap', 'touch')]
+        if n <= 2:
+            flagsets = [set(c) for r in range(len(allflags) + 1) for c in itertools.combinations(allflags, r)]
+        else:
+            flagsets = [set(), set(allflags)] + [{f} for f in allflags]
+        inners = [[[] for _ in range(n)], [['a', 'b'][:1 + (i % 2)] for i in range(n)]] + [[(['x'] if i == k else []) for i in range(n)] for k in range(n)]
+        for inner in inners:
+            for flags in flagsets:
+                for stop_at in (None, 1, 2, 4):
+                    ok, np_, info_ = run_cfg(n, inner, flags, stop_at)
+                    nruns += 1
+                    npaths += np_
+                    if not ok:
+                        bad += 1
+                        detail.append(info_)
+    st, info, model = check_unsat('multipolygon_validation_assembly', [z3.BoolVal(bad > 0)])
+    info['configurations'] = nruns
+    if detail:
+        info['first_failing (members, own errors, pair flags, stop_at, reported, expected, result)'] = [str(x)[:600] for x in detail[:3]]
+    return dict(theory='structural (every configuration run concretely); the members\' own validation, relate and the matrix accessors uninterpreted', functions=['Validation for MultiPolygon: visit_validation', 'its forwarding closure'], paths=npaths, status=st, info=info, model=None, replay=('polygon_validation', ''))
 
 
 # ---- C05 kernels
